@@ -84,7 +84,21 @@ static void *t4(void *a) {
     aws_mem_release(T, p);
     return NULL;
 }
-static int shared_site;
+/* a thread that dumps while it holds nothing itself: on an otherwise empty tracer the dump can run while another thread is
+ * half-way through registering its first allocation - byte counter already raised, record not yet in the table (added after
+ * a seeded change whose early-out for "no records" kept the tracer's mutex) */
+static void *t5(void *a) {
+    int me = (int)(intptr_t)a;
+    aws_mem_tracer_dump(T);
+    observe(me, 0, 0, "after dump with nothing of its own");
+    uint8_t *p = aws_mem_acquire(T, 8);
+    fill(p, 8, 0x55);
+    aws_mem_tracer_dump(T);
+    observe(me, 8, 1, "after second dump");
+    aws_mem_release(T, p);
+    return NULL;
+}
+static int shared_site, dump_first;
 static void run_n(int n, enum aws_mem_trace_level level) {
     galloc_reset();
     struct aws_allocator *parent = galloc_get(2, 1);
@@ -94,6 +108,7 @@ static void run_n(int n, enum aws_mem_trace_level level) {
     pthread_t th[4];
     void *(*fn[4])(void *) = {t1, t2, t3, t2};
     if (shared_site) fn[0] = fn[1] = fn[2] = t4;
+    if (dump_first) fn[0] = t2, fn[1] = t5;
     for (int i = 0; i < n; ++i) pthread_create(&th[i], NULL, fn[i], (void *)(intptr_t)i);
     for (int i = 0; i < n; ++i) pthread_join(th[i], NULL);
     VS_CHECK(aws_mem_tracer_bytes(T) == 0, "bytes-at-quiescence", "everything released but the tracer reports %zu bytes outstanding", aws_mem_tracer_bytes(T));
@@ -106,6 +121,11 @@ static void m2(void) { run_n(2, AWS_MEMTRACE_BYTES); }
 static void m3(void) { run_n(3, AWS_MEMTRACE_BYTES); }
 static void m2s(void) { run_n(2, AWS_MEMTRACE_STACKS); }
 static void m4(void) { run_n(4, AWS_MEMTRACE_BYTES); }
+static void m2e(void) {
+    dump_first = 1;
+    run_n(2, AWS_MEMTRACE_BYTES);
+    dump_first = 0;
+}
 static void m2d(void) {
     shared_site = 1;
     run_n(2, AWS_MEMTRACE_STACKS);
@@ -118,6 +138,7 @@ int main(int argc, char **argv) {
     struct vsx_scenario sc[] = {
         {.name = "TR2-bytes-two-threads", .run = m2, .bound_quick = 3, .bound_thorough = 4},
         {.name = "TR2-stacks-two-threads", .run = m2s, .bound_quick = 2, .bound_thorough = 3},
+        {.name = "TR2-bytes-dump-during-first-acquire", .run = m2e, .bound_quick = 3, .bound_thorough = 4},
         {.name = "TR2-stacks-shared-site-dump", .run = m2d, .bound_quick = 2, .bound_thorough = 3},
         {.name = "TR3-bytes-three-threads", .run = m3, .bound_quick = 2, .bound_thorough = 3},
         {.name = "TR4-bytes-four-threads", .run = m4, .bound_quick = -1, .bound_thorough = 2},
